@@ -2,7 +2,7 @@ SPECIFICATION TableSpec
 CONSTANTS
   Domains <- McDomains
   Alphabet = {"a", "B", "-", ".", "_", "c"}
-  MaxName = 7
+  MaxName = 6
   MinId = 2
   MaxId = 3
   QTypes = {"A", "AAAA", "other"}
